@@ -20,6 +20,7 @@ fn full_hash(ty: Ty, id: &str, seed: u64) -> u64 {
         Ty::V => TypeId::of::<V>(),
         Ty::ALS => TypeId::of::<std::sync::Arc<LS>>(),
         Ty::OLS => TypeId::of::<assets_manager::OnceInitCell<LS, i64>>(),
+        Ty::OOLS => TypeId::of::<assets_manager::OnceInitCell<Option<LS>, i64>>(),
         _ => unreachable!(),
     };
     t.hash(&mut h);
